@@ -8,7 +8,7 @@ from .. import core, driver, mutate, oracle, render
 
 ID = "C17"
 LEVEL = "fault_enumeration"
-RULE = ("fault enumeration x Hypothesis placement: each of the catalogued fault kinds (vf/mutate.py: %d error/critical kinds and 15 "
+RULE = ("fault enumeration x Hypothesis placement: each of the catalogued fault kinds (vf/mutate.py: %d error/critical kinds and %d "
         "warning kinds, each with the position pdpy11 documents for that diagnostic) is planted into generated host programs at a drawn "
         "position (first / middle / last statement, inside .repeat, inside an included file, inside the 2nd or 3rd linked file) with "
         "drawn text before it (tabs, non-ASCII comments and strings, labels and tabs on the culprit's own line). Oracles: (1) universal, "
